@@ -52,7 +52,19 @@ def theorems_of(pid):
     src = strip_comments(open(p).read())
     return re.findall(r"^\s*(?:Theorem|Lemma|Corollary)\s+([A-Za-z0-9_']+)", src, re.M)
 
-def check_proofs(pid):
+def coqchk_axioms(pid):
+    """independent re-check of the compiled property file and everything it depends on (thorough tier)"""
+    r = sh("timeout 3000 coqchk -silent -o -Q . SF SF.Properties.%s" % pid, cwd=COQ)
+    m = re.search(r"\* Axioms:(.*?)\n\s*\n", r.stdout, re.S)
+    axs = [a.strip() for a in (m.group(1).split("\n") if m else []) if a.strip() and a.strip() != "<none>"]
+    unsafe = []
+    for what in ("type-in-type", "unsafe (co)fixpoints", "positivity is assumed"):
+        mm = re.search(re.escape(what) + r":\s*(.*?)\n", r.stdout)
+        if mm and mm.group(1).strip() != "<none>":
+            unsafe.append(what + ": " + mm.group(1).strip())
+    return r.returncode, axs, unsafe, r.stdout[-800:]
+
+def check_proofs(pid, tier="quick"):
     res = {"coverage": {}, "assumptions": [], "broken": []}
     thms = theorems_of(pid)
     target = "Properties/%s.vo" % pid
@@ -92,4 +104,14 @@ def check_proofs(pid):
         "axioms_reported": sorted(axioms),
     }
     res["assumptions"] = ["theorems are about the hand-written model; the tie to /repo is the correspondence on this run's cases"]
+    if tier == "thorough" and ok:
+        rc, axs, unsafe, tail = coqchk_axioms(pid)
+        res["coverage"]["coqchk"] = {"exit": rc, "axioms": axs, "unsafe": unsafe}
+        if rc != 0:
+            res["broken"].append(("coqchk", "coqchk rejected Properties/%s.vo or a dependency: %s" % (pid, tail[-300:])))
+        for a in axs:
+            if not a.startswith("Coq."):
+                res["broken"].append(("axiom", "coqchk reports an axiom declared outside the standard library: " + a))
+        for u in unsafe:
+            res["broken"].append(("unsafe", "coqchk: " + u))
     return res
